@@ -16,9 +16,20 @@ the operands as iterated".
   the operator forms (also reflected, with plain sets) and issubset/issuperset/isdisjoint.  A failing reader is
   attributed to the reader and the search continues.
 
+* independence (per reached state): every way of obtaining a second IndexedSet with the same items (IndexedSet(s),
+  s.union(), s.difference(), s[:], empty.update(s), empty |= s) is followed by every single removal (and one add) on the
+  derived object - the source must not change - and on the source - the derived object must not change: an object that
+  was only *read* keeps answering like its list.
+* sort() is explored without arguments, with reverse=True, with an injective key, and with a key that produces ties
+  with and without reverse=True (list.sort is stable in both directions).  A sort that list.sort refuses (mutually
+  unorderable items, key function raising TypeError) may leave the items in any order, as it does with a list, but the
+  object must stay coherent: the order it iterates in afterwards is taken as the list and everything else (internal
+  structures, s[i], index, later operations) must agree with it.
+
 Configurations: `setutils._COMPACTION_FACTOR` (module-global seam, restored afterwards) scaled to 1 (tombstones persist),
 2, and the native value; with the native value the search also starts from pre-loaded sets (9, 17, 25 items) in which
-one, two or three tombstones survive below the compaction threshold.
+one, two or three tombstones survive below the compaction threshold.  One more native-factor search runs over a domain
+of mutually unorderable hashable items (ints, a str, None) listed in an order whose sort moves items before it fails.
 """
 import itertools
 import signal
@@ -29,6 +40,7 @@ PROPERTY = 'C11'
 LEVEL = 'model_checking'
 
 FOREIGN = 'zz'              # hashable value that is never inserted
+TOMB = '\x00<dead-slot>'   # how a tombstone is shown in the harness' view of item_list (None is a legal item)
 PROBES = ('p0', 'p1')       # fresh items added to the replayed twin by the black-box probe
 CPU_BUDGET = 60.0           # CPU seconds for the work on one state (normally ~0.05 s): hang guard
 CONCRETE = ('set', 'frozenset', 'list', 'tuple', 'iset')
@@ -163,12 +175,12 @@ def model_apply(L, op, items):
         return L, ('ok', v)
     if name == 'clear':
         return [], ('ok', None)
-    if name == 'sort':
-        return sorted(L), ('ok', None)
-    if name == 'sort_reverse':
-        return sorted(L, reverse=True), ('ok', None)
-    if name == 'sort_key':
-        return sorted(L, key=sort_key), ('ok', None)
+    if name in SORTS:
+        try:
+            return sorted(L, **SORTS[name]), ('ok', None)
+        except TypeError:
+            # list.sort raises as well and leaves the list "partially modified": the items in some order
+            return L, ('unorderable', None)
     if name == 'reverse':
         return L[::-1], ('ok', None)
     c = set(L)
@@ -189,6 +201,26 @@ def sort_key(x):
     return (x % 3, -x)
 
 
+def tie_key(x):
+    return x % 2             # many ties: a stable sort keeps tied items in their current order, reversed or not
+
+
+SORTS = {'sort': {}, 'sort_reverse': {'reverse': True}, 'sort_key': {'key': sort_key},
+         'sort_tie': {'key': tie_key}, 'sort_tie_reverse': {'key': tie_key, 'reverse': True}}
+
+
+def adopt_order(s, L):
+    """After a sort that list.sort refuses too: the order the object iterates in, when it still holds exactly the
+    items of L (each once); else L (the state oracle then reports the difference)."""
+    try:
+        got = list(s)
+        if len(got) == len(L) and len(set(got)) == len(got) and set(got) == set(L):
+            return got
+    except Exception:
+        pass
+    return list(L)
+
+
 def impl_apply(s, op, objs):
     """-> (object the name is bound to afterwards, ('ok', value) | ('exc', class name))"""
     name = op[0]
@@ -203,12 +235,8 @@ def impl_apply(s, op, objs):
             return s, ('ok', s.pop() if len(op) == 1 else s.pop(op[1]))
         if name == 'clear':
             s.clear(); return s, ('ok', None)
-        if name == 'sort':
-            s.sort(); return s, ('ok', None)
-        if name == 'sort_reverse':
-            s.sort(reverse=True); return s, ('ok', None)
-        if name == 'sort_key':
-            s.sort(key=sort_key); return s, ('ok', None)
+        if name in SORTS:
+            s.sort(**SORTS[name]); return s, ('ok', None)
         if name == 'reverse':
             s.reverse(); return s, ('ok', None)
         if name == 'update':
@@ -243,7 +271,7 @@ SETOPS = ('update', 'intersection_update', 'difference_update', 'symmetric_diffe
 def op_family(name):
     if name in ('add', 'update', 'ior'):
         return 'insertion'
-    if name in ('sort', 'sort_reverse', 'sort_key', 'reverse'):
+    if name in SORTS or name == 'reverse':
         return 'reorder'
     if name == 'clear':
         return 'clear'
@@ -264,11 +292,11 @@ def op_shape(op):
 # the implementation's internal structures
 
 def internals(s):
-    """-> (item_list with None for tombstones, dead intervals, index map) or None when the object is not laid out
+    """-> (item_list with TOMB for tombstones, dead intervals, index map) or None when the object is not laid out
     as expected (then only observable behaviour is used)."""
     try:
         missing = SU()._MISSING
-        il = tuple(None if x is missing else x for x in s.item_list)
+        il = tuple(TOMB if x is missing else x for x in s.item_list)
         di = tuple((int(a), int(b)) for a, b in s.dead_indices)
         im = dict(s.item_index_map)
         return il, di, im
@@ -294,13 +322,13 @@ def check_internals(s, L):
         return []
     il, di, im = it
     out = []
-    live = [x for x in il if x is not None]
+    live = [x for x in il if x is not TOMB]
     if live != list(L):
         out.append(('state:items', list(L), live))
-    want_map = {x: i for i, x in enumerate(il) if x is not None}
+    want_map = {x: i for i, x in enumerate(il) if x is not TOMB}
     if im != want_map:
         out.append(('invariant:item_index_map', want_map, im))
-    dead = [i for i, x in enumerate(il) if x is None]
+    dead = [i for i, x in enumerate(il) if x is TOMB]
     covered, sane, last = [], True, 0
     for a, b in di:
         if not (last <= a < b):
@@ -312,11 +340,57 @@ def check_internals(s, L):
     return out
 
 
+def snapshot(s):
+    """The internal structures when visible (every reader is a function of them); else everything the list side of the
+    statement can observe."""
+    it = internals(s)
+    if it is not None:
+        return it
+    try:
+        n = len(s)
+        items = tuple(s)
+        return (n, items, tuple(s[i] for i in range(n)), tuple(s[-i] for i in range(1, n + 1)),
+                tuple(s.index(x) for x in items))
+    except Exception as e:
+        return ('raised', type(e).__name__)
+
+
+def _into_empty_update(IS, s):
+    e = IS()
+    e.update(s)
+    return e
+
+
+def _into_empty_ior(IS, s):
+    e = IS()
+    e |= s
+    return e
+
+
+# ways of obtaining a second IndexedSet holding the items of s in the same order
+DERIVE = (('IndexedSet(s)', lambda IS, s: IS(s)),
+          ('s.union()', lambda IS, s: s.union()),
+          ('s.difference()', lambda IS, s: s.difference()),
+          ('s[:]', lambda IS, s: s[:]),
+          ('empty.update(s)', _into_empty_update),
+          ('empty|=s', _into_empty_ior))
+
+
+def mutate(t, L, mut):
+    """One mutation on the object and on the list -> new list"""
+    if mut[0] == 'remove':
+        t.remove(mut[1])
+        return [x for x in L if x != mut[1]]
+    t.add(mut[1])
+    return list(L) + [mut[1]]
+
+
 # ----------------------------------------------------------------------------------------------------
 
 class Spec:
-    def __init__(self, factor, preload, domain, depth):
+    def __init__(self, factor, preload, domain, depth, quick=False):
         self.factor, self.preload, self.domain, self.depth = factor, preload, tuple(domain), depth
+        self.quick = quick
         self.config = {'compaction_factor': factor, 'native_factor': native_factor(), 'preload': preload,
                        'domain': list(domain), 'depth': depth}
         d0, d1, d2, d3, d4 = self.domain
@@ -342,7 +416,9 @@ class Spec:
             m.append(('remove', x))
         for x in D:
             m.append(('discard', x))
-        m += [('clear',), ('sort',), ('sort_reverse',), ('sort_key',), ('reverse',)]
+        m += [('clear',), ('sort',), ('sort_reverse',), ('sort_key',), ('sort_tie_reverse',), ('reverse',)]
+        if not (self.preload and self.quick):
+            m.append(('sort_tie',))           # (both kwargs at once in every configuration)
         m += [('update',), ('intersection_update',), ('difference_update',)]
         for name in ('update', 'intersection_update', 'difference_update', 'symmetric_difference_update'):
             for p in self.pool:
@@ -381,6 +457,8 @@ class Spec:
         made = [make_operand(sp, s, L) for sp in specs]
         s2, r_i = impl_apply(s, op, [o for o, _ in made])
         L2, r_m = model_apply(L, op, [it for _, it in made])
+        if r_m[0] == 'unorderable':
+            L2 = adopt_order(s2, L)
         return s2, L2, r_i, r_m
 
     def build(self, hist):
@@ -448,6 +526,10 @@ class Spec:
                     # the state afterwards (unchanged)
                     if r_i[0] == 'exc' and r_i[1] not in ('KeyError', 'ValueError'):
                         bad('raised', 'KeyError or ValueError (or no exception), state unchanged', r_i[1])
+                elif r_m[0] == 'unorderable':
+                    # list.sort raises TypeError; the statement fixes only the state afterwards (same items, any order)
+                    if r_i[0] == 'exc' and r_i[1] != 'TypeError':
+                        bad('raised', 'TypeError (or no exception), same items in some order', r_i[1])
                 elif r_i[0] == 'exc':
                     bad('raised', r_m, 'raised ' + r_i[1])
                 elif name == 'pop' and r_i != r_m:
@@ -596,9 +678,76 @@ class Spec:
         if after != list(L) or check_internals(s, L):
             V.append(('C11|read:battery|reads-changed-the-state', self.case(hist), {'items': list(L), 'canon': k0},
                       {'items': after, 'canon': canon(s)}, None, ()))
+            return
+        self.independence(s, L, hist, V)
+
+    # -- independence of objects derived from one another ---------------------------------------------------
+    def independence(self, s, L, hist, V):
+        """Objects obtained from s (copy construction, union/difference without operands, full slice, an empty set
+        updated with s) only *read* s.  Afterwards every single removal (and an add) on the derived object must leave
+        s as it was, and the same mutation on s must leave the derived object as it was; the mutated object itself
+        must follow its list.  (s is consumed: the caller rebuilds it.)"""
+        IS = SU().IndexedSet
+        muts = [('remove', x) for x in L] + [('add', FOREIGN)]
+
+        def report(kind, what, mut, exp, obs):
+            V.append(('C11|independence:%s|%s' % (kind, what), self.case(hist, read=['independence', kind, list(mut)]),
+                      exp, obs, None, ()))
+
+        def derived_ok(kind, t, want, mut):
+            try:
+                got = list(t)
+            except Exception as e:
+                got = 'raised ' + type(e).__name__
+            probs = check_internals(t, want) if got == want else [('items', want, got)]
+            if got != want or probs:
+                report(kind, 'derived-object-state', mut, want, {'items': got, 'problems': core.jsonable(probs[:1])})
+                return False
+            return True
+
+        base = snapshot(s)
+        # (a) mutate the derived object: the source must not notice
+        for kind, fn in DERIVE:
+            for mut in muts:
+                try:
+                    t = fn(IS, s)
+                    if not isinstance(t, IS):
+                        report(kind, 'derived-object-state', (), 'an IndexedSet', type(t).__name__)
+                        break
+                    if mut is muts[0] and not derived_ok(kind, t, list(L), ()):
+                        break
+                    if not derived_ok(kind, t, mutate(t, L, mut), mut):
+                        break
+                except Exception as e:
+                    report(kind, 'raised', mut, 'no exception', 'raised ' + type(e).__name__)
+                    break
+                now = snapshot(s)
+                if now != base:
+                    report(kind, 'source-changed-by-mutating-the-derived-object', mut, core.jsonable(base),
+                           core.jsonable(now))
+                    return                      # s is damaged: nothing below would be meaningful
+        # (b) mutate the source: the derived objects must not notice
+        for mut in muts:
+            try:
+                src = s if mut is muts[-1] else self.build(hist)[0]
+                made = [(kind, fn(IS, src)) for kind, fn in DERIVE]
+                made = [(kind, t, snapshot(t)) for kind, t in made if isinstance(t, IS)]
+                mutate(src, L, mut)
+            except Exception:
+                continue                        # reported by (a) / by the state oracle of the transition
+            for kind, t, before in made:
+                now = snapshot(t)
+                if now != before:
+                    report(kind, 'derived-object-changed-by-mutating-the-source', mut, core.jsonable(before),
+                           core.jsonable(now))
 
 
 # ----------------------------------------------------------------------------------------------------
+
+# hashable items that cannot all be ordered against each other; update(list(MIXED)) yields an order in which list.sort
+# moves items (1 before 2, 3) before the comparison with the str fails
+MIXED = (2, 3, 1, 'a', None)
+
 
 def configs(tier):
     """(factor, preload, domain, depth)"""
@@ -607,7 +756,10 @@ def configs(tier):
     base = (0, 1, 2, 3, 4)
     out = [(1, 0, base, 4 if q else 5),       # tombstones are never compacted away (only dead tails are trimmed)
            (2, 0, base, 4 if q else 6),       # compaction when more than half of the slots are dead
-           (nat, 0, base, 8)]                 # 5 items never keep a tombstone at factor 8: finite space, fixpoint
+           (nat, 0, base, 8),                 # 5 items never keep a tombstone at factor 8: finite space, fixpoint
+           (nat, 0, MIXED, 8)]                # mutually unorderable items: sorts that fail part-way
+    if not q:
+        out.append((1, 0, MIXED, 4))
 
     def spread(n):                            # head, middle pair, tail, one new item
         return (0, n // 2, n // 2 + 1, n - 1, n)
@@ -707,7 +859,7 @@ def state_cap(cfg, tier):
 
 
 def explore_one(ctx, cfg):
-    spec = Spec(*cfg)
+    spec = Spec(*cfg, quick=ctx.tier == 'quick')
     try:
         res = histories.explore(spec, ctx, max_states=state_cap(cfg, ctx.tier))
     finally:
@@ -738,21 +890,25 @@ def run(ctx):
                  % (cfg[0], cfg[1], list(cfg[2]), res.states, res.transitions, res.depth, res.fixpoint, res.capped))
     cov = histories.merge_coverage(ctx, parts, rule=(
         'BFS over all histories of the op menu (add/remove/discard per item, pop() and pop(i) for every valid i, clear, '
-        'sort x3, reverse, update/intersection_update/difference_update with 0, 1 and 2 operands, '
+        'sort x5 (plain, reverse=True, injective key, key with ties with and without reverse=True), reverse, update/intersection_update/difference_update with 0, 1 and 2 operands, '
         'symmetric_difference_update and |= &= -= ^= with one; operand types set, frozenset, list with duplicates, tuple, '
         'IndexedSet, IndexedSet with tombstones, self) up to the depth bound of each configuration; a state is the '
         'canonical form of the real object (item_list with tombstones, dead_indices, item_index_map); the read battery '
-        'runs once in every distinct state'))
+        'runs once in every distinct state, followed by the independence probe (6 ways of deriving a second IndexedSet '
+        'from the state x every single removal and one add, on either object)'))
     if ctx.tier != 'quick':
         cov['directed_ops_non_exhaustive'] = directed(ctx)
     cov['exhaustive'] = all(r.fixpoint for _, r in parts)
     cov['exhaustive_below_depth_bound'] = True
     cov['read_battery_visits'] = visits
-    cov['bounds'] = {'items': 5, 'compaction_factors': sorted({c[0] for c in configs(ctx.tier)}),
+    cov['bounds'] = {'items': 5, 'item_types': 'ints; one domain of mutually unorderable items (ints, str, None)', 'compaction_factors': sorted({c[0] for c in configs(ctx.tier)}),
                      'preloads': sorted({c[1] for c in configs(ctx.tier)}),
                      'slices': 'i, j in [-n-1, n+1] or None; step None, 1..n+1 (n <= 8) else None, 2',
                      'set_algebra_operands': '0, 1, 2 operands from a pool of 12 (every type, two value sets)'}
-    ctx.assumptions += ['items are small ints / strings with well-behaved __eq__/__hash__',
+    ctx.assumptions += ['items are small ints / strings / None with well-behaved __eq__/__hash__',
+                        'a sort() that list.sort refuses with TypeError (unorderable items, key function raising '
+                        'TypeError): TypeError or no exception accepted, the items may end up in any order (as in a '
+                        'list); the order iterated afterwards is taken as the list and everything else must agree',
                         's[i] and pop(i) only for indexes valid for a list of the same length',
                         'remove(x) of an absent item: KeyError, ValueError or no exception accepted; state must be '
                         'unchanged',
